@@ -169,6 +169,16 @@ func sharedBase(v ssa.Value, seen map[ssa.Value]bool, depth int) string {
 		if b, ok := x.Call.Value.(*ssa.Builtin); ok && b.Name() == "append" && len(x.Call.Args) > 0 {
 			return sharedBase(x.Call.Args[0], seen, depth+1)
 		}
+		// a helper of the module that hands out the buffer: what it returns
+		if g := x.Call.StaticCallee(); g != nil && inModule(g) && len(g.Blocks) > 0 && g.Signature.Results().Len() == 1 {
+			for _, b := range g.Blocks {
+				if ret, ok := b.Instrs[len(b.Instrs)-1].(*ssa.Return); ok && len(ret.Results) == 1 {
+					if s := sharedBase(ret.Results[0], seen, depth+1); s != "" {
+						return s
+					}
+				}
+			}
+		}
 	case *ssa.ChangeType:
 		return sharedBase(x.X, seen, depth+1)
 	case *ssa.UnOp:
